@@ -156,7 +156,7 @@ def run_case(case, ctx):
   try:
     if route == "cli":
       text_in = emit.model_text(model, emit.Style(rng))
-      res = routes.run_potable(["@IN", "@OUT"], text_in)
+      res = routes.run_potable(["@IN", "@OUT"], text_in, stale_out=(len(text_in) % 2 == 1))
       if res["rc"] == 1 and "OverflowError" in res["err"]:
         raise OverflowError("potable subprocess: math range error")
       if res["rc"] != 0 or not res["exists"]:
